@@ -203,6 +203,20 @@ class _Tables(ast.NodeTransformer):
         return n
 
 
+def _seq_ok(targets: list, values: list) -> bool:
+    """Assigning targets[i] = values[i] one after the other equals the simultaneous assignment: no value reads a
+    target assigned before it."""
+    if any(isinstance(x, ast.Starred) for x in list(targets) + list(values)):
+        return False
+    done: set[str] = set()
+    for t, v in zip(targets, values):
+        reads = {ast.unparse(x) for x in ast.walk(v) if isinstance(x, (ast.Name, ast.Attribute, ast.Subscript))}
+        if reads & done:
+            return False
+        done.add(ast.unparse(t))
+    return True
+
+
 def _split_tuple_assigns(fn: ast.AST) -> None:
     """N14: `a, b = x, y` -> `a = x; b = y` when no right-hand side reads a target."""
     for _owner, blk in list(_blocks(fn)):
@@ -211,12 +225,18 @@ def _split_tuple_assigns(fn: ast.AST) -> None:
             st = blk[i]
             if isinstance(st, ast.Assign) and len(st.targets) == 1 and isinstance(st.targets[0], ast.Tuple) and isinstance(st.value, ast.Tuple) \
                     and len(st.targets[0].elts) == len(st.value.elts) and not any(isinstance(x, ast.Starred) for x in st.targets[0].elts + st.value.elts):
-                tnames = {ast.unparse(t) for t in st.targets[0].elts}
-                reads = {ast.unparse(x) for v in st.value.elts for x in ast.walk(v) if isinstance(x, (ast.Name, ast.Attribute, ast.Subscript))}
-                if not (tnames & reads):
+                if _seq_ok(st.targets[0].elts, st.value.elts):
                     blk[i:i + 1] = [ast.copy_location(ast.Assign(targets=[t], value=v, lineno=st.lineno), st) for t, v in zip(st.targets[0].elts, st.value.elts)]
                     i += len(st.value.elts)
                     continue
+            # `a, b = (x1, y1) if c else (x2, y2)` -> if c: a = x1; b = y1 else: a = x2; b = y2
+            if isinstance(st, ast.Assign) and len(st.targets) == 1 and isinstance(st.targets[0], ast.Tuple) and isinstance(st.value, ast.IfExp) \
+                    and isinstance(st.value.body, ast.Tuple) and isinstance(st.value.orelse, ast.Tuple) \
+                    and len(st.value.body.elts) == len(st.value.orelse.elts) == len(st.targets[0].elts) \
+                    and _seq_ok(st.targets[0].elts, st.value.body.elts) and _seq_ok(st.targets[0].elts, st.value.orelse.elts):
+                mk = lambda vs: [ast.copy_location(ast.Assign(targets=[copy.deepcopy(t)], value=v, lineno=st.lineno), st) for t, v in zip(st.targets[0].elts, vs)]  # noqa: E731
+                blk[i] = ast.copy_location(ast.If(test=st.value.test, body=mk(st.value.body.elts), orelse=mk(st.value.orelse.elts)), st)
+                continue
             i += 1
 
 
